@@ -59,12 +59,11 @@ def searchLeft : List α → α → Nat
 def sliceLast (n : Nat) (p : Int) : Nat :=
   if p = 0 then n else if 0 < p then min p.toNat n else n - (-p).toNat
 
-/-- Number of eigen-directions `_eigendecomposition` keeps; `none` is the `IndexError` of
-    `summed[-1]` on an empty array (no positive eigenvalue and a fractional or negative request). -/
+/-- Number of eigen-directions `_eigendecomposition` keeps; `none` is the `ValueError` the routine raises
+    when the matrix has no positive eigenvalue (nothing can be retained). -/
 def selectRank (desc : List α) : RankReq α → Option Nat
   | .int r =>
-    -- the logging branch `rank < len(summed)` reads `summed[-1]`: IndexError on an empty `summed`
-    if countPos desc = 0 ∧ r < 0 then none
+    if countPos desc = 0 then none
     else some (sliceLast desc.length (min r (countPos desc : Int)))
   | .frac f =>
     let summed := cumsum (desc.take (countPos desc))
